@@ -45,8 +45,12 @@ OLD_FMTS = list(FMTS)   # the pre-widening streams keep drawing from this list, 
 # round-5 classes (module docstring; writers in vlib/gen/files.py)
 WIDE = ["lammpstrj-ortho-vel", "lammpstrj-tric", "xyz-ext", "xyz-ext.gz", "nc-amber", "nc-double", "h5-rich", "dcd-be", "dcd-rec64", "dcd-deg", "trr-mixed",
         "mdcrd-crlf", "dtr-clickme", "arc-nobox", "xtc-dense", "hdf5", "netcdf", "crd", "xtc-chunk1", "trr-chunk1"]
-FMTS = FMTS + WIDE
-TRR_CLASSES = {"trr-double": "trr", "trr-vf": "trr", "trr-mixed": "trr", "trr-chunk1": "trr"}   # one reader, one mechanism key
+# frames of 1021 atoms: the TRR frame body (36-byte box + 12 bytes per atom) is then exactly 3 x 4096 bytes, the size of common
+# stdio / page buffers; every reader that skips or buffers by blocks meets its boundary case (the other formats: frames larger
+# than any such buffer)
+BIGFRAME = ["trr-1021", "xtc-1021", "dcd-1021"]
+FMTS = FMTS + WIDE + BIGFRAME
+TRR_CLASSES = {"trr-1021": "trr", "trr-double": "trr", "trr-vf": "trr", "trr-mixed": "trr", "trr-chunk1": "trr"}   # one reader, one mechanism key
 UNIT = {"h5": 1.0, "hdf5": 1.0, "xtc": 1.0, "trr": 1.0}   # others: angstrom (10 per nm)
 # dcd0 = DCD whose header frame count was never patched (0); dcd4 = CHARMM 4-dimensional DCD (see vlib/gen/files.py);
 # mdcrd-nobox = MDCRD without box lines (the default files carry a cell)
@@ -236,10 +240,10 @@ def _file_for(fmt, N_FRAMES=N_FRAMES):
         files.arc_write(path, files.ident_xyz(N_FRAMES, na))
     else:
         ext = {"xtc9": "xtc", "dcd0": "dcd", "dcd4": "dcd", "dcdfix": "dcd", "trr-double": "trr", "trr-vf": "trr", "mdcrd-nobox": "mdcrd", "mdcrd-hasbox": "mdcrd",
-               "mdcrd-nobox20": "mdcrd", "xyz-foreign": "xyz"}.get(fmt, fmt)
+               "mdcrd-nobox20": "mdcrd", "xyz-foreign": "xyz", "trr-1021": "trr", "xtc-1021": "xtc", "dcd-1021": "dcd"}.get(fmt, fmt)
         # mdcrd lines hold 10 numbers: 10 and 20 atoms end a frame on a full line; those two variants also tell the reader
         # up front whether box lines are present (has_box=) instead of letting it detect them
-        na = {"xtc9": 6, "mdcrd-hasbox": 10, "mdcrd-nobox20": 20}.get(fmt, 12)
+        na = {"xtc9": 6, "mdcrd-hasbox": 10, "mdcrd-nobox20": 20, "trr-1021": 1021, "xtc-1021": 1021, "dcd-1021": 1021}.get(fmt, 12)
         _OPENKW[fmt] = {"mdcrd-hasbox": dict(has_box=True), "mdcrd-nobox20": dict(has_box=False)}.get(fmt, {})
         t = files.ident_traj(N_FRAMES, na, cell=None if fmt in ("dcd4", "dcdfix", "mdcrd-nobox", "mdcrd-nobox20") else "ortho")
         path = os.path.join(_TMP, f"f_{fmt}_{N_FRAMES}.{ext}")
@@ -263,7 +267,7 @@ def _file_for(fmt, N_FRAMES=N_FRAMES):
     _REF[fmt, N_FRAMES] = [(nm, None if v is None else np.array(v)) for nm, v in _fields(res)]
     f, a = files.identify(R / UNIT.get(ext, 10.0))
     good = (R.shape[0] == N_FRAMES and np.array_equal(f[:, 0], np.arange(N_FRAMES) % 40)
-            and (np.array_equal(a[0][:12], np.arange(12)) if fmt == "xtc-dense" else np.array_equal(a[0], np.arange(na))))
+            and (np.array_equal(a[0][:12], np.arange(12)) if (fmt == "xtc-dense" or na > 60) else np.array_equal(a[0], np.arange(na))))
     _CACHE[fmt, N_FRAMES] = (path, ext, na, R, good)
     return _CACHE[fmt, N_FRAMES]
 
